@@ -85,9 +85,9 @@ CLAIMS = {
     "C12": dict(
         technique="Coq proof of the hiding statements that hold (LIST both forms, NAMES contribution, WHO by channel name) and a machine-checked refutation for NAMES with an explicit name + two-world differential check on the real server",
         text="Theorems (props/C12.v): LIST (explicit and bare) answers an outsider exactly as in the world without the secret channel; NAMES contributes no line for a secret channel to a non-member; "
-             "WHO #secret gives the bare 315 in both worlds; WHOIS never lists a secret channel whoever asks; an invisible user sharing no channel with the asker gets an empty WHOIS and is not "
+             "WHO with any mask (wildcards, nicknames, channel names incl. the secret one) answers an outsider exactly as in the world without the secret channel; WHOIS never lists a secret channel whoever asks; an invisible user sharing no channel with the asker gets an empty WHOIS and is not "
              "listed by NAMES to outsiders. C12_names_explicit_refuted proves that NAMES #secret is silent while NAMES #absent answers 366, for every state: the recorded finding. "
-             "All remaining forms (comma lists, wildcard WHO and WHOIS masks) are decided per run by executing both worlds on the real server and comparing the outsider's view (L2).",
+             "All remaining forms (NAMES comma lists, WHOIS masks) are decided per run by executing both worlds on the real server and comparing the outsider's view (L2).",
         design_ref="5 (C12)",
         note="Partial at proof level (theorem names end in _partial); one known finding, listed in known_findings.json."),
     "C15": dict(
@@ -112,7 +112,7 @@ CLAIMS = {
              "(C13_grammar_complete); serialising a message with a source and tokenising the result gives back exactly source, command and parameters (C13_serialise_parse, C13_relay_reparses); a verb outside the table is answered 421 "
              "with the upper-cased name, a known verb with fewer parameters than its arity 461, and with enough parameters the line is executed as exactly that verb or answered with a "
              "parameter-specific error - never 421/461 (all 41 verbs, every arity); an unparsable line changes nothing and an empty line is ignored; the framing model (split at LF, strip CR, 2000-byte limit) yields the same "
-             "frames however the byte stream is cut into segments, and an over-long line is reported as such, never executed (C13_segmentation_invariant, C13_overlong_not_executed). the format!-built relays PART, KICK, PRIVMSG/NOTICE re-parse to verb, target and text for every text (C13_relay_part, C13_relay_kick, C13_relay_msg). CRLF termination "
+             "frames however the byte stream is cut into segments, an over-long line is reported as such, never executed, and a received line never contains LF (C13_segmentation_invariant, C13_overlong_not_executed, C13_received_lines_have_no_lf). the format!-built relays PART, KICK, PRIVMSG/NOTICE re-parse to verb, target and text for every text (C13_relay_part, C13_relay_kick, C13_relay_msg). CRLF termination "
              "and the 301 relay are decided per run on the real server (L2); the framing model is the one the extracted program runs against the real LinesCodec.",
         design_ref="5 (C13)",
         note="Partial at proof level: CRLF emission is checked by an oracle, not proved; the python grammar oracle is part of the check's trusted base."),
